@@ -1,6 +1,6 @@
 (* correspondence entry points for C14: observation of the bookkeeping after every edit *)
 From QV.Model Require Import Base Matrix Arith Expr Extrema Sat PCBO Convert PCSO.
-From QV.Proofs Require Import InvProofs.
+From QV.Proofs Require Import InvProofs InvConstraint.
 Open Scope Q_scope.
 
 Record obs := { o_tm : terms; o_deg : option nat; o_vars : list label; o_n : nat; o_mp : list (label * nat); o_anc : nat }.
@@ -8,18 +8,7 @@ Record obs := { o_tm : terms; o_deg : option nat; o_vars : list label; o_n : nat
 Definition observe (m : model) : obs :=
   {| o_tm := tm m; o_deg := deg_c m; o_vars := vars_c m; o_n := num_vars m; o_mp := mp m; o_anc := anc m |}.
 
-(* the edits of the C14 theorem, plus (correspondence only) the constraint methods of PCBO / PCSO as edits *)
-Inductive hedit := HE (e : edit) | HC (r : rel) (P : terms) (lam : Q) (lt : bool) (b : bounds).
-Definition apply_hedit (m : model) (h : hedit) : result model :=
-  match h with
-  | HE e => apply_edit m e
-  | HC r P lam lt b =>
-      match (match kd m with KPcso => pcso_add r m P lam lt b | _ => add_constraint r m P lam lt b end) with
-      | Ok (m', _, _) => Ok m'
-      | Err x => Err x
-      end
-  end.
-
+(* the edits of the C14 theorems: item / arithmetic edits and the constraint methods (Proofs/InvConstraint.v) *)
 Fixpoint run_obs (m : model) (es : list hedit) : list obs * option err :=
   match es with
   | [] => ([], None)
